@@ -15,6 +15,7 @@ package beacon
 
 //@ func (*beacon).getTimestampFromTreasure(b, t) (r)
 //@   property C07 C30
+//@   holds b.mu
 //@   nopanic
 //@   requires[record] t != nil
 //@   ensures[attr] r == tsof(b.sortOrder, t)
@@ -23,6 +24,7 @@ package beacon
 // sort attribute lies in [from, to); (0,-1) when there is none.
 //@ func (*beacon).findTimeRangeBounds(b, fromTime, toTime) (s, e)
 //@   property C07
+//@   holds b.mu
 //@   nopanic
 //@   requires[sorted] sortedByTime(b)
 //@   requires[records] forall i in 0..len(b.treasuresByOrder): b.treasuresByOrder[i] != nil
@@ -181,3 +183,18 @@ package beacon
 //@   property C11
 //@   modifies *
 //@   ensures[index_resorted_whenever_records_return] len(treasures) > 0 && old(b.isOrdered) ==> calls("Slice") == old(calls("Slice")) + 1 && litof(lastarg("Slice", 1)) == 1 && b.sortOrder == SortByExpirationTimeAsc
+
+// ---------------------------------------------------------------------------------------
+// Property C10 (no unsynchronised access to shared memory), index side. The key map, the ordered slice and
+// the ordering flags of an index are protected by its RWMutex: EVERY method of the type is checked (census)
+// to touch them only with the lock held in the right mode, and the map an index hands out is a private copy
+// (so iterating it needs no lock).
+//@ type beacon
+//@   guarded_by mu: treasuresByKeys, treasuresByOrder, isOrdered, sortOrder only C10
+//@ census beacon property C10
+//@ func (*beacon).GetAll(b) (out)
+//@   property C10
+//@   nopanic
+//@   modifies *
+//@   ensures[a_private_copy_is_handed_out] out != nil && fresh(out)
+//@   ensures[index_unchanged] mapsame(b.treasuresByKeys)
